@@ -110,6 +110,16 @@ def run(ctx):
     for cls in kits:
         for _ in range(per):
             ctx.guard(check_validate, {"cls": asm.cls_name(cls), "word": malformed_for(rng, cls, kits)})
+    # every kit class, and generic modules and vectors, on a record that has their structure and a third site of
+    # their cutter inside it (the refusal that is raised after the structure matched): in every run
+    for cls in kits:
+        w_ = T.inner_site_instance(rng, cls, lower=rng.choice(["upper", "mixed"]))
+        ctx.guard(check_validate, {"cls": asm.cls_name(cls), "word": gen.rot(w_, rng.randrange(len(w_)))})
+    for enz in asm.pick_enzymes(rng, ctx.budget(30, 600)):
+        for kind in "MV":
+            cls = asm.cls_by_name("generic:{}:{}".format(kind, enz))
+            w_ = T.inner_site_instance(rng, cls)
+            ctx.guard(check_validate, {"cls": "generic:{}:{}".format(kind, enz), "word": gen.rot(w_, rng.randrange(len(w_)))})
     for enz in asm.pick_enzymes(rng, ctx.budget(200, 8000)):
         kind = rng.choice("MV")
         cls = asm.cls_by_name("generic:{}:{}".format(kind, enz))
